@@ -154,9 +154,9 @@ def check(v, prop, families, extra_clause_props=(), also=()):
     if any(fam['family'] == 'tlccover' for fam in families):
         # ... and a path cover of the smaller design-model graphs: every transition of the model is driven through the real code
         from . import tlcsched
-        path, nb, stats = tlcsched.cover(thorough, max_paths=None if thorough else 400)
+        path, nb, stats = tlcsched.cover(thorough, max_paths=None if thorough else 1500)
         v.add('tlc_cover_behaviours', nb)
-        v.coverage['tlc_cover'] = {c: {'model_transitions': e, 'covering_paths': p} for c, (e, p) in stats.items()}
+        v.coverage['tlc_cover'] = {c: dict(cov, covering_paths=p) for c, (e, p, cov) in stats.items()}
         families = [dict(fam, family='tlc', quick=nb, thorough=nb, knobs=dict(fam.get('knobs', {}), file=path, sequential=True,
                                                                                base=fam.get('first', 0)))
                     if fam['family'] == 'tlccover' else fam for fam in families]
